@@ -1274,7 +1274,7 @@ func main() {
 		panic(err)
 	}
 	rep := hx.NewReport("C12", o.Seed, o.Tier)
-	rep.Rule = "systematic: every I/O form alone x every name of its pool (standard-stream names, missing, unwritable, numeric, with blank) x 8 flag combinations x working/failing shell; every operand kind alone and in pairs read by the main loop / plain getline / ARGV assigned at run time; all ordered pairs of forms on one name with and without close in between; then random scripts of 1-11 operations over a small per-case vocabulary. Every case runs with a custom OpenFile (recording, redirecting into a shadow directory) and with the default. distinct = distinct model request line; non-trivial = the script performs at least one operation or has an operand"
+	rep.Rule = "systematic: every I/O form alone x every name of its pool (standard-stream names, missing, unwritable, numeric, with blank) x 8 flag combinations x working/failing shell; every operand kind alone and in pairs read by the main loop / plain getline / ARGV assigned at run time; all ordered pairs of forms on one name with and without close in between; fflush alone and around open/close; then random scripts of 1-11 operations over a small per-case vocabulary. Every case runs with a custom OpenFile (recording, redirecting into a shadow directory) and with the default. distinct = distinct model request line; non-trivial = the script performs at least one operation or has an operand"
 	// a memory file system when there is one: a run creates and removes a dozen files
 	root, err := os.MkdirTemp("/dev/shm", "c12-")
 	if err != nil {
